@@ -271,6 +271,13 @@ func Ite(c, a, b *Term) *Term {
 	if c.Op == "not" {
 		return Ite(c.Args[0], b, a)
 	}
+	// the condition itself as an arm
+	if a == c {
+		a = ConstBool(true)
+	}
+	if b == c {
+		b = ConstBool(false)
+	}
 	if a.Sort == Bool && b.Sort == Bool && a.IsConst() && b.IsConst() {
 		if a.C.Sign() != 0 && b.C.Sign() == 0 {
 			return c
